@@ -629,7 +629,7 @@ class Check(PropertyCheck):
         if case.get('_unsupported') or '_term' not in case:
             return None
         t, tb, otb = case['_term'], case['_table'], case['_otable']
-        return f'(wfo {t}, show_mat (x_as_matrix {tb} {otb} {t}), show_mat (x_generic {tb} {t}), mat {tb} {t})'
+        return f'(wfo {t}, show_mat (x_as_matrix {tb} {otb} {t}), show_mat (x_generic {tb} {t}), Exec.mat {tb} {t})'
 
     def decode(self, case, v):
         wf, over, gen, cols = v
@@ -642,6 +642,15 @@ class Check(PropertyCheck):
         if cols is not None and obs.get('in_size') == 0:
             cols = []
         return {'wf': True, 'override': obs.get('override'), 'generic': obs.get('generic'), 'columns': cols}
+
+    def search_cases(self):
+        """A bounded wider stream for the failing-input search (a thorough-tier sample)."""
+        if self.tier != 'quick':
+            return []
+        other = type(self)('thorough', self.seed + 1)
+        cs = other.cases()
+        other.rng.shuffle(cs)
+        return cs[:300]
 
     def nontrivial(self, case, obs):
         return isinstance(obs, dict) and (obs.get('overrides') or len(_leaves(obs.get('in'))) > 1 or len(_leaves(obs.get('out'))) > 1)
